@@ -51,8 +51,12 @@ def gen_number(rng):
     if k < 0.25:
         s = rng.choice(["0", "-0", "1", "-1", "7", "10", "123", "2147483647", "-2147483648", "9223372036854775807",
                         "9223372036854775808", "-9223372036854775808", "18446744073709551615", "4294967296"])
-    elif k < 0.40:
+    elif k < 0.34:
         s = ("-" if rng.chance(0.4) else "") + str(rng.randrange(1, 10)) + "".join(rng.choice("0123456789") for _ in range(rng.randrange(0, 19)))
+    elif k < 0.40:
+        # integers of 19 .. 40 digits with every leading digit: at and far beyond the 64-bit bounds (saturation in default
+        # mode, rejection in strict mode, whatever the conversion routine's overflow test looks at)
+        s = ("-" if rng.chance(0.35) else "") + str(rng.randrange(1, 10)) + "".join(rng.choice("0123456789") for _ in range(rng.choice([18, 19, 19, 19, 20, 21, 25, 39])))
     else:
         ip = rng.choice(["0", str(rng.randrange(1, 10 ** rng.randrange(1, 18)))])
         s = ("-" if rng.chance(0.4) else "") + ip
